@@ -989,7 +989,11 @@ class BaseImage(metaclass=ImageMeta):
 
         if not method:
             if cls._render_methods:
-                cls._render_method = cls._default_render_method
+                if "_render_method" in vars(cls):
+                    del cls._render_method
+                # No parent style class (with a render method) to inherit from
+                if not getattr(cls, "_render_method", None):
+                    cls._render_method = cls._default_render_method
         else:
             cls._render_method = method
 
